@@ -2288,5 +2288,6 @@ func runCache(ctx *Ctx) {
 	e.reuseLines()
 	e.histLines()
 	e.marshalAliasOracle()
+	e.decoderReuseObservation()
 	e.cacheRunLines()
 }
